@@ -123,11 +123,26 @@ pub fn dispatch(mode: &str, f: &[Vec<u8>]) -> Option<R> {
         }
         // opts count file -> one field per object number 0..count (canon | !Kind), the trailer, then one field
         // per scan item ("O<id>,<gen> canon" | "T canon" | "!Kind")
-        "xr_all" => {
-            let mut st = match storage(&f[2], fld(f, 0)) { Ok(s) => s, Err(e) => return Some(Err(ekind(&e))) };
-            let tr = match st.load_storage_and_trailer() { Ok(t) => t, Err(e) => return Some(Err(ekind(&e))) };
-            let r = st.resolver();
+        "xr_all" => observe(fld(f, 0), dec(fld(f, 1)) as u64, &f[2]),
+        // opts count prefix file -> observation of file, "|", observation of prefix ++ file ("!Kind" when it does not load)
+        "xr_pair" => {
             let n = dec(fld(f, 1)) as u64;
+            let mut out = match observe(fld(f, 0), n, &f[3]) { Ok(v) => v, Err(k) => vec![format!("!{}", k).into_bytes()] };
+            out.push(b"|".to_vec());
+            let mut both = f[2].clone();
+            both.extend_from_slice(&f[3]);
+            match observe(fld(f, 0), n, &both) { Ok(v) => out.extend(v), Err(k) => out.push(format!("!{}", k).into_bytes()) }
+            Ok(out)
+        }
+        _ => return None,
+    })
+}
+
+fn observe(o: &[u8], n: u64, file: &[u8]) -> R {
+    Some({
+            let mut st = match storage(file, o) { Ok(s) => s, Err(e) => return Err(ekind(&e)) };
+            let tr = match st.load_storage_and_trailer() { Ok(t) => t, Err(e) => return Err(ekind(&e)) };
+            let r = st.resolver();
             let mut out = vec![];
             for id in 0..n {
                 out.push(canon_res(r.resolve(PlainRef { id, gen: 0 }), &r));
@@ -142,7 +157,5 @@ pub fn dispatch(mode: &str, f: &[Vec<u8>]) -> Option<R> {
                 });
             }
             Ok(out)
-        }
-        _ => return None,
-    })
+    }).unwrap()
 }
